@@ -4,7 +4,10 @@
   goroutine (RecvMsg → route | fail → cancelPendingMsgs → reconnect(-1)), the RW lock
   `streamMut` with Go's writer preference, the atomic flag `streamBroken`, the router
   lock `responseMut` (held while a response is put on a reply channel), stream
-  generations, the send queue as a counter, Close.
+  generations, the send queue as a counter, Close; and the requests written to a stream that
+  has died and that are still unanswered (`lost`): `cancelPendingMsgs` answers them — the
+  receiver runs it when it sees a stream fail, and `reconnect` runs it (for the requests that
+  have been handed to a stream) under the write lock before it replaces a stream.
 
   Every label is one synchronisation-relevant statement of the code; the environment
   labels are what the peer, the timers, the callers and `Close` can do.  `step` is
@@ -22,6 +25,7 @@ inductive SPc where
   | rcPre       -- reconnect(1) entered, `Lock()` not yet called (the flag was read as true in connect())
   | rcWant      -- reconnect(1): `c.streamMut.Lock()` (pending writer)
   | rcHeld      -- reconnect(1): holds the write lock
+  | rcBlocked   -- reconnect(1): holds the write lock and `responseMut`, blocked in cancelPendingMsgs sending on a full reply channel
   | rcSleep     -- reconnect(1): select { time.After(delay) | parentCtx.Done }
   | brokenChk   -- sender(): `if c.streamBroken.get()` → route "stream is down"
   | wantR       -- sendMsg(): `c.streamMut.RLock()`
@@ -39,6 +43,7 @@ inductive RPc where
   | cancel      -- failure path: cancelPendingMsgs (wants `responseMut`)
   | rcWant      -- reconnect(-1): `c.streamMut.Lock()`
   | rcHeld      -- reconnect(-1): holds the write lock
+  | rcBlocked   -- reconnect(-1): holds the write lock and `responseMut`, blocked in cancelPendingMsgs sending on a full reply channel
   | rcSleep     -- reconnect(-1): back-off sleep
   | exitChk     -- `select { parentCtx.Done: cancelPendingMsgs; return; default }`
   | cancelExit  -- the node was closed: cancelPendingMsgs before returning (wants `responseMut`)
@@ -59,6 +64,7 @@ structure St where
   writer : Option Who := none     -- holder of streamMut for writing
   alive : Bool := false           -- the current stream object works (not cancelled, peer connection intact)
   inflight : Nat := 0             -- requests written to the current stream whose answers have not been read yet
+  lost : Nat := 0                 -- requests written to a stream that has died, not yet answered by cancelPendingMsgs
   queued : Nat := 0               -- requests handed to the channel and not yet popped by the sender
   retriesS : Nat := 0             -- `retries` of the sender's reconnect(1)
   peerUp : Bool := true           -- the server accepts connections and streams
@@ -68,9 +74,9 @@ structure St where
 
 inductive Label where
   -- sender
-  | sPop | sEval | sDial | sConnB | sRcEnter | sRcLock | sRcDo | sRcWake | sBrokenChk | sRLock | sSendOk | sSendFail | sExit
+  | sPop | sEval | sDial | sConnB | sRcEnter | sRcLock | sRcDo | sRcDoBlock | sRcWake | sBrokenChk | sRLock | sSendOk | sSendFail | sExit
   -- receiver
-  | rRLock | rRecvMsg | rRecvErr | rDeliver | rDeliverBlock | rCancel | rCancelBlock | rRcLock | rRcDo | rRcWake | rExitChk | rCancelExit | rCancelExitBlock
+  | rRLock | rRecvMsg | rRecvErr | rDeliver | rDeliverBlock | rCancel | rCancelBlock | rRcLock | rRcDo | rRcDoBlock | rRcWake | rExitChk | rCancelExit | rCancelExitBlock
   -- environment
   | eRequest          -- a caller hands a request to the channel
   | eStreamFail       -- the current stream dies: cancelStream() by a watcher, the peer crashes, a transport error
@@ -84,7 +90,13 @@ def lockFree (s : St) : Bool := !s.readS && !s.readR && s.writer.isNone
 /-- Go's RWMutex: a pending `Lock` blocks new `RLock`s -/
 def writerPending (s : St) : Bool := s.spc == .rcWant || s.rpc == .rcWant
 
-def newStream (s : St) : St := { s with alive := true, inflight := 0, broken := false }
+/-- a new stream object becomes the current one; what was in flight on the old one will not be answered by it -/
+def newStream (s : St) : St := { s with alive := true, lost := s.lost + s.inflight, inflight := 0, broken := false }
+/-- the current stream dies: its answers will not come -/
+def killStream (s : St) : St := { s with alive := false, lost := s.lost + s.inflight, inflight := 0 }
+/-- `reconnect` replaces the stream: under the write lock it first answers the requests that were written to
+    older streams (`cancelPendingMsgs(true)`), then creates the new stream -/
+def replaceStream (s : St) : St := { newStream s with lost := 0 }
 
 def step (s : St) : Label → Option St
   -- ---------------------------------------------------------------- sender
@@ -109,9 +121,12 @@ def step (s : St) : Label → Option St
   | .sRcDo =>
     if s.spc != .rcHeld then none
     else if !s.broken then some { s with spc := .brokenChk, writer := none }           -- stream is already up
-    else if s.peerUp && !s.closed then some { newStream s with spc := .brokenChk, writer := none }
-    else if s.retriesS ≥ 1 then some { s with spc := .brokenChk, writer := none, broken := true }   -- give up
-    else some { s with spc := .rcSleep, writer := none }
+    else if s.fullStream then none                                                       -- cancelPendingMsgs would block: see sRcDoBlock
+    else if s.peerUp && !s.closed then some { replaceStream s with spc := .brokenChk, writer := none }
+    else if s.retriesS ≥ 1 then some { s with spc := .brokenChk, writer := none, broken := true, lost := 0 }   -- give up
+    else some { s with spc := .rcSleep, writer := none, lost := 0 }
+  -- the stream is broken and a streaming router's reply channel is full: cancelPendingMsgs blocks under both locks
+  | .sRcDoBlock => if s.spc == .rcHeld && s.broken && s.fullStream then some { s with spc := .rcBlocked } else none
   | .sRcWake => if s.spc == .rcSleep then (if s.closed then some { s with spc := .brokenChk } else some { s with spc := .rcWant, retriesS := s.retriesS + 1 }) else none
   | .sBrokenChk =>
     if s.spc != .brokenChk then none
@@ -126,26 +141,28 @@ def step (s : St) : Label → Option St
   | .rRecvErr => if s.rpc == .reading && !s.alive then some { s with rpc := .cancel, readR := false, broken := true } else none
   | .rDeliver => if s.rpc == .deliver then some { s with rpc := .exitChk } else none
   | .rDeliverBlock => if s.rpc == .deliver && s.fullStream then some { s with rpc := .blockedSend } else none
-  | .rCancel => if s.rpc == .cancel && !s.fullStream then some { s with rpc := .rcWant } else none
+  | .rCancel => if s.rpc == .cancel && !s.fullStream then some { s with rpc := .rcWant, lost := 0 } else none
   | .rCancelBlock => if s.rpc == .cancel && s.fullStream then some { s with rpc := .blockedSend } else none
   | .rRcLock => if s.rpc == .rcWant && lockFree s then some { s with rpc := .rcHeld, writer := some .receiver } else none
   | .rRcDo =>
     if s.rpc != .rcHeld then none
     else if !s.broken then some { s with rpc := .exitChk, writer := none }
-    else if s.peerUp && !s.closed then some { newStream s with rpc := .exitChk, writer := none }
-    else some { s with rpc := .rcSleep, writer := none }
+    else if s.fullStream then none                                                       -- cancelPendingMsgs would block: see rRcDoBlock
+    else if s.peerUp && !s.closed then some { replaceStream s with rpc := .exitChk, writer := none }
+    else some { s with rpc := .rcSleep, writer := none, lost := 0 }
+  | .rRcDoBlock => if s.rpc == .rcHeld && s.broken && s.fullStream then some { s with rpc := .rcBlocked } else none
   | .rRcWake => if s.rpc == .rcSleep then (if s.closed then some { s with rpc := .exitChk } else some { s with rpc := .rcWant }) else none
   | .rExitChk => if s.rpc == .exitChk then some { s with rpc := if s.closed then .cancelExit else .top } else none
-  | .rCancelExit => if s.rpc == .cancelExit && !s.fullStream then some { s with rpc := .exited } else none
+  | .rCancelExit => if s.rpc == .cancelExit && !s.fullStream then some { s with rpc := .exited, lost := 0 } else none
   | .rCancelExitBlock => if s.rpc == .cancelExit && s.fullStream then some { s with rpc := .blockedSend } else none
   -- ---------------------------------------------------------------- environment
   | .eRequest => if s.closed then none else some { s with queued := s.queued + 1 }
-  | .eStreamFail => if s.alive then some { s with alive := false, inflight := 0 } else none
-  | .ePeerDown => some { s with peerUp := false, alive := false, inflight := 0 }
+  | .eStreamFail => if s.alive then some (killStream s) else none
+  | .ePeerDown => some { killStream s with peerUp := false }
   | .ePeerUp => some { s with peerUp := true }
   | .eFullStream => some { s with fullStream := true }
-  | .eDeleteRouter => if s.rpc == .blockedSend then none else some { s with fullStream := false }
-  | .eClose => some { s with closed := true, alive := false, inflight := 0 }
+  | .eDeleteRouter => if s.rpc == .blockedSend || s.rpc == .rcBlocked || s.spc == .rcBlocked then none else some { s with fullStream := false }
+  | .eClose => some { killStream s with closed := true }
 
 def exec (s : St) : List Label → Option St
   | [] => some s
@@ -156,8 +173,8 @@ def Reachable (s : St) : Prop := ∃ ls, exec init ls = some s
 
 /-- labels the library itself executes -/
 def libLabels : List Label :=
-  [.sPop, .sEval, .sDial, .sConnB, .sRcEnter, .sRcLock, .sRcDo, .sBrokenChk, .sRLock, .sSendOk, .sSendFail, .sExit,
-   .rRLock, .rRecvMsg, .rRecvErr, .rDeliver, .rCancel, .rCancelBlock, .rRcLock, .rRcDo, .rExitChk, .rCancelExit, .rCancelExitBlock]
+  [.sPop, .sEval, .sDial, .sConnB, .sRcEnter, .sRcLock, .sRcDo, .sRcDoBlock, .sBrokenChk, .sRLock, .sSendOk, .sSendFail, .sExit,
+   .rRLock, .rRecvMsg, .rRecvErr, .rDeliver, .rCancel, .rCancelBlock, .rRcLock, .rRcDo, .rRcDoBlock, .rExitChk, .rCancelExit, .rCancelExitBlock]
 
 /-- what a well-behaved environment does on its own: timers fire, a reachable peer answers what it was sent
     (`rRecvMsg` is in `libLabels`: it is enabled exactly when an answer is owed on a live stream) -/
@@ -167,8 +184,9 @@ def benignLabels : List Label := [.sRcWake, .rRcWake]
     (which of the two happens depends on which router the message is for) -/
 def enabled (s : St) (l : Label) : Bool := (step s l).isSome
 
-/-- something is owed: a request is queued or being handled, or answers are in flight -/
-def owes (s : St) : Bool := s.queued > 0 || (s.spc != .idle && s.spc != .exited) || s.inflight > 0
+/-- something is owed: a request is queued or being handled, answers are in flight, or requests written to
+    a dead stream have not been answered yet -/
+def owes (s : St) : Bool := s.queued > 0 || (s.spc != .idle && s.spc != .exited) || s.inflight > 0 || s.lost > 0
 
 /-- nothing the library or a well-behaved environment does can happen -/
 def Stuck (s : St) : Bool := (libLabels ++ benignLabels).all (fun l => !enabled s l)
@@ -178,7 +196,40 @@ def Stuck (s : St) : Bool := (libLabels ++ benignLabels).all (fun l => !enabled 
 def ShapeStaleBroken (s : St) : Bool :=
   s.spc == .rcWant && s.rpc == .reading && s.readR && s.alive && s.inflight == 0
 
-/-- **W2 (stream back-pressure)**: the receiver is blocked sending on a full reply channel while holding `responseMut` -/
-def ShapeBackpressure (s : St) : Bool := s.rpc == .blockedSend
+/-- **W2 (stream back-pressure)**: a library goroutine is blocked sending on a full reply channel while holding
+    `responseMut`: the receiver in `routeResponse` / `cancelPendingMsgs`, or either goroutine in the
+    `cancelPendingMsgs` of `reconnect` (then also holding the write lock) -/
+def ShapeBackpressure (s : St) : Bool := s.rpc == .blockedSend || s.rpc == .rcBlocked || s.spc == .rcBlocked
+
+/-- a cancellation of the pending requests is on its way: the receiver is about to run `cancelPendingMsgs`
+    (or is blocked in it), or the current stream is dead — then the receiver finds it dead at its next read, or
+    whoever replaces it answers the pending requests first -/
+def CancelComing (s : St) : Bool :=
+  !s.alive || s.rpc == .cancel || s.rpc == .cancelExit || s.rpc == .blockedSend || s.rpc == .rcBlocked || s.spc == .rcBlocked
+
+/-- the receiver is parked in `RecvMsg` on a live stream on which nothing is in flight -/
+def Parked (s : St) : Bool := s.rpc == .reading && s.alive && s.inflight == 0
+
+/-- the pinned code: `reconnect` replaces the stream without answering the requests written to the old one -/
+def stepPinned (s : St) (l : Label) : Option St :=
+  match l with
+  | .sRcDo =>
+    if s.spc != .rcHeld then none
+    else if !s.broken then some { s with spc := .brokenChk, writer := none }
+    else if s.peerUp && !s.closed then some { newStream s with spc := .brokenChk, writer := none }
+    else if s.retriesS ≥ 1 then some { s with spc := .brokenChk, writer := none, broken := true }
+    else some { s with spc := .rcSleep, writer := none }
+  | .rRcDo =>
+    if s.rpc != .rcHeld then none
+    else if !s.broken then some { s with rpc := .exitChk, writer := none }
+    else if s.peerUp && !s.closed then some { newStream s with rpc := .exitChk, writer := none }
+    else some { s with rpc := .rcSleep, writer := none }
+  | .sRcDoBlock => none
+  | .rRcDoBlock => none
+  | l => step s l
+
+def execPinned (s : St) : List Label → Option St
+  | [] => some s
+  | l :: ls => (stepPinned s l).bind (fun s' => execPinned s' ls)
 
 end GorumsV.ConnMgr
